@@ -51,6 +51,7 @@ type FuncRun struct {
 	notes     []string
 	checkSeen  map[string]int // internal (check) clauses: number of return paths on which they could be evaluated
 	checkSkip  map[string]int
+	pendingBindings []Val
 	epochInfo map[int]*epochInfo
 	unknownCalls map[string]bool
 	usedContracts map[string]bool
